@@ -3,7 +3,7 @@
    Model/MapResume.v compiled into file-system events; crash = prefix of the event list; resume = a run with
    cleanup=False on the crashed file system).  NewCode is the repaired write protocol (temporary file + os.replace,
    run_info.json last, DictArray.load keyed on the file), OldCode what the code did before. *)
-From Verif Require Import Base.Prelude Base.StrUtil Base.Index Base.NdArr
+From Verif Require Import Base.Prelude Base.StrUtil Base.Index Base.NdArr Base.PyRange
   Model.MapSpec Model.MapRun Model.SymBody.
 From Verif Require Import Proofs.MapResumeFacts Proofs.MapValuesFacts Proofs.CrashFSFacts.
 From Verif Require Import Model.MapResume Model.CrashFS Model.CrashFSRef.
@@ -87,6 +87,33 @@ Proof.
     repeat match goal with H : _ \/ _ |- _ => destruct H | H : False |- _ => destruct H end; subst; cbn in Ho, Hq;
     repeat match goal with H : _ \/ _ |- _ => destruct H | H : False |- _ => destruct H end; subst; try discriminate.
 Qed.
+
+(* a non-trivial instance of the hypotheses: reference pipeline ref3, rs = the store a run restricted to i = 0 left *)
+Definition ref3_ctx : ctx :=
+  {| x_p := r_funcs ref3; x_inputs := r_inputs ref3;
+     x_shapes := match all_shapes (r_user ref3) (r_inputs ref3) (r_funcs ref3) with Ok sh => sh | Err _ => [] end |}.
+Definition ref3_part_store : rstore :=
+  match map_run_sel sym_body (r_funcs ref3) (r_inputs ref3) (r_user ref3) (Some [(s "i", FInt 0%Z)]) empty_store with
+  | ROk ps => p_store ps | RErr _ _ => empty_store end.
+Definition ref3_full : rstore :=
+  match map_run_sel sym_body (r_funcs ref3) (r_inputs ref3) (r_user ref3) None empty_store with
+  | ROk ps => p_store ps | RErr _ _ => empty_store end.
+Example ex_ref3_vals_same : st_val ref3_part_store = st_val ref3_full.
+Proof. vm_compute. reflexivity. Qed.
+Example ex_sub_store : sub_store ref3_ctx ref3_part_store ref3_full.
+Proof.
+  split.
+  - intros f sm Hf Hm Hs. cbn in Hf. destruct Hf as [<-|[<-|[<-|[]]]]; cbn in Hm; try discriminate;
+      vm_compute in Hs; injection Hs as <-; cbn zeta; intros j x Hj Hx; cbn in Hj;
+      (assert (j = 0) by lia); subst j; vm_compute in Hx;
+      (destruct x as [|[|x]]; [right; vm_compute; reflexivity | left; vm_compute; reflexivity | lia]).
+  - intros o r H. rewrite <- ex_ref3_vals_same. exact H.
+Qed.
+Example ex_ref3_runs : exists psF psR,
+  map_run_sel sym_body (x_p ref3_ctx) (x_inputs ref3_ctx) [] None empty_store = ROk psF
+  /\ map_run_sel sym_body (x_p ref3_ctx) (x_inputs ref3_ctx) [] None ref3_part_store = ROk psR
+  /\ p_store psF = ref3_full /\ calls_of (p_tr psR) = [(s "f", Some 1); (s "m", Some 1)].
+Proof. do 2 eexists. split; [vm_compute; reflexivity|]. split; [vm_compute; reflexivity|]. split; vm_compute; reflexivity. Qed.
 
 (* Not proved in general: that the resumed run completes (it is proved to call only missing elements and, when it
    completes, to end with F); that the Result.output arrays (not only the store) coincide. *)
